@@ -27,6 +27,28 @@ type Env struct {
 	resultTypes []types.Type
 	bound       map[string]envVar
 	depth       int
+	facts       *[]*Term // type facts of every heap value read while evaluating (always true of a well-typed heap)
+}
+
+func (e *Env) addFact(v *Term, t types.Type) {
+	if e.facts == nil || t == nil {
+		return
+	}
+	f := e.u.typeFacts(v, t)
+	if f.S != "true" {
+		*e.facts = append(*e.facts, f)
+	}
+}
+
+// evalBoolF evaluates a boolean contract expression; the type facts of the
+// values it reads are assumed into st (they hold in every well-typed heap).
+func (u *Unit) evalBoolF(env *Env, st *State, x Expr) *Term {
+	var facts []*Term
+	sub := *env
+	sub.facts = &facts
+	t := u.evalBool(&sub, x)
+	u.assume(st, And(facts...))
+	return t
 }
 
 type tv struct {
@@ -491,7 +513,9 @@ func (e *Env) selector(x *ESel) tv {
 		return tv{u.subPtr(structT, s.Field(idx).Name(), p), types.NewPointer(ft)}
 	}
 	sort, _ := u.sortOf(ft)
-	return tv{u.loadLoc(e.st, fieldMapName(structT, x.Name), sort, p), ft}
+	lv := u.loadLoc(e.st, fieldMapName(structT, x.Name), sort, p)
+	e.addFact(lv, ft)
+	return tv{lv, ft}
 }
 
 func (e *Env) lookupLocalQuiet(name string) (tv, bool) {
@@ -563,7 +587,9 @@ func (e *Env) index(x *EIdx) tv {
 			return tv{p, types.NewPointer(st.Elem())}
 		}
 		sort, _ := u.sortOf(st.Elem())
-		return tv{u.loadLoc(e.st, elemMapName(sort), sort, p), st.Elem()}
+		lv := u.loadLoc(e.st, elemMapName(sort), sort, p)
+		e.addFact(lv, st.Elem())
+		return tv{lv, st.Elem()}
 	case SStr, SString:
 		i := u.evalTerm(e, x.I)
 		return tv{u.strAt(e.st, s, i), types.Typ[types.Uint8]}
@@ -604,6 +630,10 @@ func (e *Env) quant(x *EQuant) tv {
 			facts = append(facts, u.typeFacts(bt, t))
 		}
 	}
+	// Type facts of values read under the binder are not added: the solver
+	// does not know them for unread heap cells, so conjoining them would
+	// strengthen an exists / weaken a forall depending on polarity.
+	sub.facts = nil
 	body := u.evalBool(&sub, x.Body)
 	if x.Forall {
 		return tv{Forall(bs, Implies(And(facts...), body)), types.Typ[types.Bool]}
@@ -614,12 +644,7 @@ func (e *Env) quant(x *EQuant) tv {
 func (e *Env) callExpr(x *ECall) tv {
 	u := e.u
 	if x.Recv != nil {
-		// method-style call on a value: resolve as spec function "Type.Method" or plain name
-		args := append([]Expr{x.Recv}, x.Args...)
-		if sf, ok := u.prog.specs.SpecFns[x.Fn]; ok {
-			return e.specCall(sf, args)
-		}
-		e.fail("unknown spec method %s", x.Fn)
+		return e.methodCall(x)
 	}
 	switch x.Fn {
 	case "old":
@@ -729,6 +754,96 @@ func (e *Env) callExpr(x *ECall) tv {
 	}
 	e.fail("unknown function %s in contract", x.Fn)
 	return tv{}
+}
+
+// methodCall: x.M(args) in a contract denotes the result of a side-effect-free
+// method that has a contract: either a 'function' contract (uninterpreted
+// function of receiver and arguments) or one whose ensures defines the result
+// by an equation "result == E".
+func (e *Env) methodCall(x *ECall) tv {
+	u := e.u
+	recv := e.eval(x.Recv)
+	if recv.t == nil {
+		e.fail("method call %s on untyped value", x.Fn)
+	}
+	var keys []string
+	t := types.Unalias(recv.t)
+	if pe := ptrElem(t); pe != nil {
+		keys = append(keys, "(*"+namedKey(pe)+")."+x.Fn, "("+namedKey(pe)+")."+x.Fn)
+	} else {
+		keys = append(keys, "("+namedKey(t)+")."+x.Fn)
+	}
+	var ct *Contract
+	var key string
+	for _, k := range keys {
+		if c := u.prog.specs.Contracts[k]; c != nil {
+			ct, key = c, k
+			break
+		}
+	}
+	if ct == nil {
+		args := append([]Expr{x.Recv}, x.Args...)
+		if sf, ok := u.prog.specs.SpecFns[x.Fn]; ok {
+			return e.specCall(sf, args)
+		}
+		e.fail("method %s has no contract (tried %v)", x.Fn, keys)
+	}
+	if ct.Extern {
+		u.externsUsed[key] = true
+	}
+	sig := u.prog.methodSig(recv.t, x.Fn)
+	if sig == nil {
+		e.fail("method %s not found on %s", x.Fn, recv.t)
+	}
+	args := []Val{recv.v}
+	for _, a := range x.Args {
+		args = append(args, e.eval(a).v)
+	}
+	rs := sig.Results()
+	if rs.Len() != 1 {
+		e.fail("method %s: exactly one result expected in a contract expression", x.Fn)
+	}
+	rt := rs.At(0).Type()
+	if ct.Flags["function"] != "" {
+		var as []*Term
+		var sorts []Sort
+		for _, a := range args {
+			t, ok := a.(*Term)
+			if !ok {
+				e.fail("method %s: scalar arguments expected", x.Fn)
+			}
+			as = append(as, t)
+			sorts = append(sorts, t.Sort)
+		}
+		rsort, _ := u.sortOf(rt)
+		f := u.ctx.Func("fn!"+key, sorts, rsort)
+		return tv{App(rsort, f, as...), rt}
+	}
+	for _, en := range ct.Ensures {
+		if b, ok := en.Expr.(*EBin); ok && b.Op == "==" {
+			if id, ok := b.L.(*EIdent); ok && id.Name == "result" {
+				vars, _ := u.bindArgs(sig, args, true)
+				sub := *e
+				sub.vars = vars
+				sub.bound = map[string]envVar{}
+				sub.fr = nil
+				sub.pkgPath = ct.PkgPath
+				r := sub.eval(b.R)
+				r.t = rt
+				return r
+			}
+		}
+	}
+	e.fail("method %s: contract is neither 'flag function' nor defines result by an equation", x.Fn)
+	return tv{}
+}
+
+func (p *Program) methodSig(t types.Type, name string) *types.Signature {
+	obj, _, _ := types.LookupFieldOrMethod(t, true, nil, name)
+	if f, ok := obj.(*types.Func); ok {
+		return f.Type().(*types.Signature)
+	}
+	return nil
 }
 
 func (r tv) t0() types.Type {
